@@ -591,8 +591,39 @@ def oracle_c11_any(case, reply):
         return oracle_c11_bind(case, reply)
     return oracle_c11(case, reply)
 
+
+def oracle_c13_access(case, reply):
+    """an accepted value expression mentions nothing the target package cannot name (restated from the property)"""
+    ws = case["raw"]
+    if ws[0] != "access":
+        return []
+    if reply.startswith(("panic", "unparsed", "blowup", "timeout")):
+        return ["%s on %s" % (reply, " ".join(ws))]
+    if not reply.startswith("ok"):
+        return []
+    it = iter(int(x) for x in ws[1:])
+    want, n = next(it), next(it)
+    bad = []
+    for _ in range(n):
+        if next(it) == 0:
+            name, exported, scope, pkg, importable = next(it), next(it), next(it), next(it), next(it)
+            if scope in (0, 1):
+                continue
+            if pkg != want and not exported:
+                bad.append("identifier #%d is unexported in package %d" % (name, pkg))
+            if pkg != want and not importable:
+                bad.append("identifier #%d belongs to package %d, which package %d may not import" % (name, pkg, want))
+            if scope == 3:
+                bad.append("identifier #%d is local to a function" % name)
+        else:
+            for _ in range(next(it)):
+                name, exported, pkg = next(it), next(it), next(it)
+                if not exported and pkg != want:
+                    bad.append("a positional literal sets the unexported field #%d of package %d" % (name, pkg))
+    return ["value expression accepted for package %d although %s" % (want, "; ".join(bad[:3]))] if bad else []
+
 ORACLES = {"C19": oracle_c19, "C09": oracle_c09, "C12": oracle_c12, "C02": oracle_c02, "C05": oracle_c05, "C06": oracle_c06, "C07": oracle_c07,
-           "C08": oracle_c08, "C10": oracle_c10, "C11": oracle_c11_any}
+           "C08": oracle_c08, "C10": oracle_c10, "C11": oracle_c11_any, "C13": oracle_c13_access}
 
 
 # ---- projections: which part of a reply a property's correspondence compares --------------
@@ -678,7 +709,7 @@ def run_stream(mode, args, timeout=900):
         if meta and meta[-1] == "":
             meta.pop()
         extra = {}
-        if mode in ("rename", "bind"):
+        if mode in ("rename", "bind", "access"):
             # sources the harness could not use (a defect of the generator, never of Wire) are counted, not compared
             skip = mode + "-skip"
             keep = [i for i, r in enumerate(reqs) if not r.startswith(skip)]
